@@ -43,6 +43,11 @@ def main(argv=None):
     ap.add_argument('--max-wall', type=float, default=float(os.environ.get('VERIF_MAX_WALL', '0') or 0),
                     help='overall wall-clock budget in seconds (default: 900 quick, 1500 thorough); jobs that cannot finish are reported INCOMPLETE')
     a = ap.parse_args(argv)
+    # scratch directory of this run (native builds of the worker processes); removed when the driver exits
+    import atexit, shutil, tempfile
+    runtmp = tempfile.mkdtemp(prefix='vq_run_')
+    os.environ['VQ_TMP'] = runtmp
+    atexit.register(shutil.rmtree, runtmp, True)
     prop = a.prop.upper()
     tier = a.tier if a.tier in ('quick', 'thorough') else 'quick'
     seed = int(os.environ.get('VERIF_SEED', '0') or 0)
